@@ -393,6 +393,24 @@ func c12PoolRules(c *core.Ctx, r *c12roles, fns []*ssa.Function, allowed map[*ss
 			}
 		}
 	}
+	// the allocator keeps no unsynchronised package-level state: no plain store rooted at a package-level variable in
+	// the node API outside package initialisers
+	for _, f := range fns {
+		if core.FuncPkg(f) != r.idr || !r.nodeAPIFunc(f) || (f.Synthetic != "" && f.Name() == "init") {
+			continue
+		}
+		for _, w := range core.Writes(f) {
+			if w.Global == nil || !core.InRepo(w.Global.Pkg.Pkg) {
+				continue
+			}
+			// allowed: functions only reachable from package init (resetNodePool) are recognised by having no node parameter
+			// and storing a whole sync.Pool value
+			if n := core.NamedOf(w.Global.Type()); n != nil && n.Obj().Pkg() != nil && n.Obj().Pkg().Path() == "sync" {
+				continue
+			}
+			c.Bad(rc, core.FuncKey(f)+" writes package state "+w.Global.Name(), w.Pos, "the node allocator writes package-level state without sync/atomic or sync.Pool: two goroutines acquiring nodes at the same time can be handed the same node or ID")
+		}
+	}
 	// pool New may also be a plain function value (not a closure)
 	// use-after-release inside one function
 	for _, f := range fns {
@@ -519,6 +537,10 @@ func returnsResetNode(f *ssa.Function, r *c12roles, depth int) bool {
 				}
 			}
 			if !dom {
+				return false
+			}
+			// and it must be a fresh allocation of this call, not a slot of shared storage
+			if _, fresh := v.(*ssa.Alloc); !fresh {
 				return false
 			}
 		}
